@@ -83,9 +83,22 @@ func capScript(sc *cScript) {
 
 func cRun(t *testing.T, r *fw.Run, key string, sc *cScript, prop string) {
 	capScript(sc)
+	if sc.Route == "" {
+		// a quarter of the scripts reach the HTTP client through DefaultClient
+		b := sc.Backoff
+		switch h := fw.Hash("route", key); {
+		case h%8 == 0 && b.InitialInterval > 0 && b.Multiplier >= 1 && (b.Jitter == -1 || b.Jitter > 0 && b.Jitter < 1):
+			sc.Route = "pkg"
+		case h%8 <= 1:
+			sc.Route = "nilhttp"
+		default:
+			sc.Route = "own"
+		}
+	}
 	desc, _ := json.Marshal(sc)
 	r.Begin(key, string(desc))
 	obs := runClient(t, sc)
+	r.Count("route_"+sc.Route, 1)
 	r.Count("connect_executions", 1)
 	r.Count("attempts_observed", int64(len(obs.Attempts)))
 	r.Count("onretry_observed", int64(len(obs.Retries)))
